@@ -1,8 +1,8 @@
 (* C05 - the statements of the property theorems and their proofs from ProofsZech / ProofsArr / ProofsField. *)
 From Coq Require Import ZArith Lia Ring List Bool.
 From Coq Require Import Znumtheory.
-From C09 Require Model ProofsAlg.
-From C05 Require Import Model Checker ExtModel ProofsZech ProofsArr ProofsField ProofsExt.
+From C09 Require Model ProofsAlg ProofsIrr.
+From C05 Require Import Model Checker ExtModel ProofsZech ProofsArr ProofsField ProofsIrred ProofsExt.
 Import ListNotations.
 Local Open Scope Z_scope.
 
@@ -130,6 +130,46 @@ Definition Ext_inv_stmt : Prop :=
 Lemma ext_inv : Ext_inv_stmt.
 Proof. exact ext_inv_ok. Qed.
 Example ext_inv_example : e_inv 3 [1; 0; 1] [0; 1] = Some [0; 2] /\ e_div 3 [1; 0; 1] [2; 1] [1; 2] = Some [2].
+Proof. vm_compute. split; reflexivity. Qed.
+
+(* (3d) the per-field certificate the check evaluates on every run: for the (p,k,f,g) a field object reports, if the two extracted
+   boolean checkers answer true - fg_ok p k f g, and tables_ok on the tables the model's builder computes from (p,k,f,g) (the check
+   also compares these tables entry by entry with the implementation's) - then ALL of the following hold for that field:
+   p is prime, f is irreducible of degree k over F_p, g has order exactly p^k - 1 modulo f, cardinality / characteristic / exponent
+   are p^k, p, k, the representation is a bijection with the polynomials of degree < k, and in every commutative ring of
+   characteristic p with a root x of f every scalar operation and macro is the ring operation on the polynomial images
+   (inv a * a = 1 and (a/b) * b = a are part of scalar_ops_spec). *)
+Definition Certified_field_stmt : Prop :=
+  forall p k f g, fg_ok p k f g = true ->
+  let T := mk_tables p k f g in
+  tables_ok p k f g T = true ->
+    (prime p /\ 1 <= k /\ C09.Model.deg (fpoly p k f) = k /\ C09.ProofsIrr.irreducible_def p (fpoly p k f)) /\
+    (let Fp := fpoly p k f in let A := C09.Model.pmod p (gpoly p k g) Fp in let N := Z.to_nat (p ^ k - 1) in
+     C09.Model.npow p A Fp N = C09.Model.pone /\ forall i, (1 <= i < N)%nat -> C09.Model.npow p A Fp i <> C09.Model.pone) /\
+    (t_q T = p ^ k /\ t_one T = p ^ k - 1 /\ t_p T = p /\ t_k T = k /\
+     (forall a, 0 <= a < p ^ k -> 0 <= nth (Z.to_nat a) (t_log2pol T) 0 < p ^ k /\
+                                  zget (t_pol2log T) (nth (Z.to_nat a) (t_log2pol T) 0) = a)) /\
+    (forall (R : Type) (rO rI : R) (radd rmul rsub : R -> R -> R) (ropp : R -> R),
+       ring_theory rO rI radd rmul rsub ropp (@eq R) ->
+     forall x : R, zr R rO rI radd rmul ropp p = rO -> sem R rO rI radd rmul ropp x (digits p (S (Z.to_nat k)) f) = rO ->
+       let ph := phi p k T R rO rI radd rmul ropp x in
+       scalar_ops_spec R rI radd rmul rsub ropp (t_one T) (t_mone T) (plun_of T) ph /\
+       macro_ops_spec R radd rmul rsub (t_one T) (t_mone T) (plun_of T) ph /\
+       ph 0 = rO /\ ph (t_one T) = rI /\ ph (t_mone T) = ropp rI).
+Lemma certified_field : Certified_field_stmt.
+Proof.
+  intros p k f g Hfg T Hok.
+  destruct (modulus_irreducible p k f g Hfg) as [Hp [Hk [_ [Hd Hi]]]].
+  destruct (generator_primitive p k f g Hfg) as [_ [Hg1 Hg2]].
+  pose proof (repr_bijection p k f g T Hok) as HB. cbv zeta in HB.
+  destruct HB as [_ [_ [Hq [Ho [Hpp [Hkk [HL _]]]]]]].
+  split; [split; [exact Hp|split; [exact Hk|split; [exact Hd|exact Hi]]]|]. split; [split; [exact Hg1|exact Hg2]|]. split.
+  - split; [exact Hq|split; [exact Ho|split; [exact Hpp|split; [exact Hkk|]]]]. intros a Ha. exact (HL a Ha).
+  - intros R rO rI radd rmul rsub ropp Rth x Hc Hr ph.
+    destruct (field_ops p k f g T Hok R rO rI radd rmul rsub ropp Rth x Hc Hr) as [H1 [H2 [H3 [H4 [H5 _]]]]].
+    split; [exact H1|split; [exact H2|split; [exact H3|split; [exact H4|exact H5]]]].
+Qed.
+Example certified_field_GF9 : fg_ok 3 2 14 3 = true /\ tables_ok 3 2 14 3 (mk_tables 3 2 14 3) = true.
 Proof. vm_compute. split; reflexivity. Qed.
 
 (* (4) array forms and dotprod: see ProofsArr (array_forms_spec, dotprod_spec, pre_decrement_loop_is_wrong). *)
